@@ -72,9 +72,25 @@ with_command = Fn(FD, "assemble_with_command", slot="driver", ret="res", key="dr
     },
 )
 
+parse_command = Fn(FD, "parse_command", slot="driver", mode="stub", ret="res", key="driver::parse_command",
+    requires=[C("the_program_name_is_the_first_argument", "args@.len() >= 1")],
+    ensures=[C("a_function_of_the_arguments", "(match res { Ok(c) => command_of(args@) == Some(c), Err(_) => command_of(args@) is None })"),
+             C("failure_is_loud", "res is Err ==> final(report).msgs() > old(report).msgs()"),
+             C("success_is_clean", "res is Ok ==> *final(report) == *old(report)")])
+CMD = "(command_of(args@)->0)"
+drive = Fn(FD, "drive", slot="driver", ret="res", key="driver::drive", props=["C18", "C03"],
+    requires=[C("the_program_name_is_the_first_argument", "args@.len() >= 1", ["C03"])],
+    ensures=[
+        C("failure_is_loud", "res is Err ==> final(report).msgs() > 0", ["C03", "C18"]),
+        C("a_rejected_command_line_writes_nothing", "command_of(args@) is None ==> res is Err && final(fileserver).written() == old(fileserver).written()", ["C18"]),
+        C("help_and_version_write_nothing", "command_of(args@) is Some && (%s.show_help || %s.show_version) ==> res is Ok && final(fileserver).written() == old(fileserver).written()" % (CMD, CMD), ["C18"]),
+        C("an_accepted_one_writes_exactly_the_files_of_its_groups", "res is Ok && !%s.show_help && !%s.show_version ==> (res->Ok_0).output is Some && (res->Ok_0).decls is Some && final(fileserver).written() == old(fileserver).written() + "
+          "group_files(%s.output_groups@, %s.output_groups@.len() as int, (res->Ok_0).output->0, ((res->Ok_0).decls->0).symbols)" % (CMD, CMD, CMD, CMD), ["C18", "C03"]),
+    ])
+
 UNIT = Unit(
     "U-dispatch", "u_dispatch/skeleton.rs",
-    items=stubs + [r_error, Type(FA, "struct", "AssemblyResult", slot="asm"), assemble, result_new, Type(FD, "enum", "OutputFormat", slot="driver", derive="Clone, Copy"), Type(FD, "struct", "Command", slot="driver"), Type(FD, "struct", "CommandOutput", slot="driver"), print_usage, print_vs, print_vf, format_output, with_command],
+    items=stubs + [r_error, Type(FA, "struct", "AssemblyResult", slot="asm"), assemble, result_new, Type(FD, "enum", "OutputFormat", slot="driver", derive="Clone, Copy"), Type(FD, "struct", "Command", slot="driver"), Type(FD, "struct", "CommandOutput", slot="driver"), print_usage, print_vs, print_vf, format_output, with_command, parse_command, drive],
     serves=["C18", "C11", "C12", "C03"],
     description="driver::format_output: which formatter renders which output format, with which parameters",
 )
